@@ -55,6 +55,12 @@ OPS = {
     "missing": ("get", (1, 3, 9, 9, 0)),  # raises NoSuchOID
     # racing family
     "getW1": ("get", (1, 3, 7, 1, 0)),
+    # through one shared PyWrapper: an operation issued by the consumer of a
+    # walk that is still in progress, and plain wrapper calls next to it
+    "pywalkget": ("pywalkget", (1, 3, 1)),
+    "pybulkwalkget": ("pybulkwalkget", [(1, 3, 2, 1), (1, 3, 2, 2)], 2),
+    "pyget": ("pyget", (1, 3, 4, 1, 0)),
+    "pytable": ("pytable", (1, 3, 2)),
 }
 
 ENVS = ("v2c", "v3", "v3x2")
@@ -69,6 +75,10 @@ def task_sets(tier):
         for b in singles[i:]:
             out.append(("v2c", [a, b], None))
     out.append(("v2c", ["getW1", "setW1"], None))
+    out.append(("v2c", ["pywalkget"], None))
+    out.append(("v2c", ["pywalkget", "pyget"], None))
+    out.append(("v2c", ["pybulkwalkget", "pytable"], None))
+    out.append(("v3", ["pywalkget", "pyget"], None))
     v3pairs = [("getA", "getB"), ("getA", "walk"), ("walk", "setW1"), ("bulkwalk", "multiget"), ("getA", "missing"), ("walk", "walk2"), ("getW1", "setW1")]
     for a, b in v3pairs:
         out.append(("v3", [a, b], None))
@@ -123,6 +133,22 @@ async def run_op_async(client, op):
     from ..world import OID, norm_oid, norm_value, to_lib_value
 
     name, a = op[0], op[1:]
+    if name.startswith("py"):
+        from puresnmp import PyWrapper
+
+        w = client.__dict__.get("_shared_wrapper")
+        if w is None:
+            w = client.__dict__["_shared_wrapper"] = PyWrapper(client)
+        dotted = lambda o: ".".join(map(str, o))  # noqa
+        if name == "pyget":
+            return ("py", repr(await w.get(dotted(a[0]))))
+        if name == "pytable":
+            return ("py", repr(sorted(sorted(r.items()) for r in await w.table(dotted(a[0])))))
+        out = []
+        gen = w.walk(dotted(a[0])) if name == "pywalkget" else w.bulkwalk([dotted(o) for o in a[0]], bulk_size=a[1])
+        async for vb in gen:
+            out.append((vb[0], repr(vb[1]), repr(await w.get(vb[0]))))
+        return ("py", tuple(out))
     if name == "get":
         return norm_value(await client.get(OID(a[0])))
     if name == "multiget":
@@ -280,7 +306,7 @@ def solo_results(env, names):
         if env == "v3x2" and i % 2 == 1:
             r = make_run_for_user(n, "bob")
         ctx, obs, _ = explore.run_once(r, ())
-        out.append(dict(obs[0])[0])
+        out.append(dict(obs[0]).get(0, ("!stuck", None)))
     return out
 
 
